@@ -411,8 +411,11 @@ def _rel_fn():
     return z3.Function("Rel", z3.StringSort(), z3.StringSort(), z3.IntSort(), z3.BoolSort())
 
 
-def unit_gff_finish(U):
-    """_GFFDBCreator._update_relations: level-2 rows = composition of two relation edges"""
+def unit_gff_finish(U, prefix="C02", only_level1=True):
+    """_GFFDBCreator._update_relations: level-2 rows = composition of two level-1 edges.
+    only_level1: hypothesis 'relations holds only level-1 rows' (true inside create_db, where the
+    populate step inserts level 1 only); without it (FeatureDB.update on an existing database)
+    the clause demands that the composed edges themselves are level-1 edges."""
     for keep in (False, True, ".sfx"):
         it, fs = _gff_interp()
         a_s, a_v = sval("a")
@@ -435,7 +438,7 @@ def unit_gff_finish(U):
             cr = blank_creator(C._GFFDBCreator, conn, _keep_tempfiles=keep)
             it.call(C._GFFDBCreator._update_relations, [cr], {})
             return None
-        base = "C02.gff.finish[keep=%s]" % (keep,)
+        base = "%s.gff.finish[keep=%s]" % (prefix, keep)
 
         def replay(m):
             # chain g -> m -> e plus a second parent: level-2 rows must be exactly the compositions
@@ -492,9 +495,13 @@ def unit_gff_finish(U):
             # selected(c) := exists r1 in Rel: r1.child == c and where(r1)
             selected = z3.Exists([r1["parent"].term, r1["child"].term, r1["level"].term],
                                  z3.And(Rel(r1["parent"].term, r1["child"].term, r1["level"].term), Q._zb(cond), r1["child"].term == c_v))
-            spec = z3.Exists([b, l1, l2], z3.And(Rel(a_v, b, l1), Rel(b, c_v, l2)))
-            U.prove(base + ".nested#p%d" % p.index, "for the id a: {child} selected <==> exists b: (a, b, .) in relations and (b, c, .) in relations; argument is the driving id; projected column is child",
-                    list(p.pc), z3.And(selected == spec, z3.BoolVal(lock and proj == ["child"] and si2.source[1] == "relations" and len(sel[1].args) == 1 and sel[1].args[0] is a_s)),
+            spec = z3.Exists([b], z3.And(Rel(a_v, b, 1), Rel(b, c_v, 1)))
+            pp, cc, ll = z3.String("pp"), z3.String("cc"), z3.Int("ll")
+            lvl1 = [z3.ForAll([pp, cc, ll], z3.Implies(Rel(pp, cc, ll), ll == 1))] if only_level1 else []
+            U.prove(base + ".nested#p%d" % p.index, "for the id a: {child} selected <==> exists b: (a, b, 1) and (b, c, 1) in relations - second level means two level-1 edges" +
+                    (" (relations holds only level-1 rows at this point of create_db)" if only_level1 else " (also when level-2 rows already exist, as in update())") +
+                    "; argument is the driving id; projected column is child",
+                    list(p.pc) + lvl1, z3.And(selected == spec, z3.BoolVal(lock and proj == ["child"] and si2.source[1] == "relations" and len(sel[1].args) == 1 and sel[1].args[0] is a_s)),
                     vars_, replay=replay)
             # the inserted rows
             e = ins[0]
@@ -606,3 +613,45 @@ def unit_bounded_dags(U):
 
 def c02_units():
     return [("gff.step", unit_gff_step), ("gff.finish", unit_gff_finish), ("lemma", unit_lemma), ("bounded.dags", unit_bounded_dags)]
+
+
+# ------------------------------------------------------------------------------------------
+# JSON as a string hole that remembers what it encodes (assumption A-J: loads(dumps(x)) == x)
+# ------------------------------------------------------------------------------------------
+_JSON_REG = {}
+
+
+def json_hole(obj):
+    n = len(_JSON_REG)
+    v = z3.String("json!%d" % n)
+    _JSON_REG[str(v)] = obj
+    c = Ctx.current
+    hole = Val(v, excl=frozenset("\t\n\r"), nonempty=True, excl_first=frozenset(_WS), excl_last=frozenset(_WS), tag="json")
+    if c is not None:
+        for k in hole.constraints():
+            c.assume(k)
+    return SStr([hole])
+
+
+def json_unhole(s):
+    s = SStr.of(s)
+    if len(s.atoms) == 1 and isinstance(s.atoms[0], Val) and str(s.atoms[0].v) in _JSON_REG:
+        return _JSON_REG[str(s.atoms[0].v)]
+    raise Undecided("_unjsonify of a string that is not a JSON hole: %r" % (s,))
+
+
+def install_json(it):
+    it.contracts[H._jsonify] = lambda interp, a, k: json_hole(a[0])
+
+    def un(interp, a, k):
+        obj = json_unhole(a[0])
+        if k.get("isattributes") or (len(a) > 1 and a[1]):
+            if isinstance(obj, Attributes):
+                at = object.__new__(Attributes)
+                at._d = dict(obj._d)
+                return at
+            at = object.__new__(Attributes)
+            at._d = dict(obj)
+            return at
+        return obj._d if isinstance(obj, Attributes) else obj
+    it.contracts[H._unjsonify] = un
